@@ -763,10 +763,7 @@ fn exec_case(ops: &[String], run: &mut Run) {
                 let recv = u64hex(kv(r, "recv").expect("recv"));
                 let now = u64hex(kv(r, "now").expect("now"));
                 let msg = unhex(kv(r, "msg").expect("msg")).expect("msg hex");
-                let buf: usize = match kv(r, "buf") {
-                    Some("len") | None => msg.len(),
-                    Some(x) => x.parse().expect("buf"),
-                };
+                let buf_spec = kv(r, "buf").unwrap_or("len").to_string();
                 let sess = match (kv(r, "s2c"), kv(r, "c2s"), kv(r, "alg")) {
                     (Some(s), Some(c), Some(a)) if s != "-" => Some(Session { alg: a.parse().unwrap(), s2c: unhex(s).unwrap(), c2s: unhex(c).unwrap() }),
                     _ => None,
@@ -789,7 +786,26 @@ fn exec_case(ops: &[String], run: &mut Run) {
                 let ts = &w.info.time_snapshot;
                 let t = (NtpTimestamp::from_fixed_int(recv) - ts.root_variance_base_time).to_seconds();
                 let rvar = ts.root_variance_base + t * ts.root_variance_linear + t.powi(2) * ts.root_variance_quadratic + t.powi(3) * ts.root_variance_cubic;
-                let raw: Vec<&str> = words.iter().copied().take_while(|x| *x != "|").collect();
+                // the shadow server (4096-octet buffer) runs first: its answer's length is the NATURAL length, to which a
+                // buffer specification `nat-<k>` / `nat+<k>` refers (resolved here and logged as a plain number, so
+                // logged cases replay verbatim)
+                let keyset = w.keyset.clone();
+                w.clock.now.store(now, std::sync::atomic::Ordering::Relaxed);
+                let big = run_handle(w.shadow.as_mut().expect("cfg first"), ip, recv, now, &msg, 4096, &keyset, &sess);
+                let buf: usize = match buf_spec.as_str() {
+                    "len" => msg.len(),
+                    x if x.starts_with("nat") => {
+                        let k: i64 = x[3..].parse().unwrap_or(0);
+                        if big.responded { (big.resp_len as i64 + k).max(0) as usize } else { msg.len() }
+                    }
+                    x => x.parse().expect("buf"),
+                };
+                let raw: Vec<String> = words
+                    .iter()
+                    .copied()
+                    .take_while(|x| *x != "|")
+                    .map(|x| if x.starts_with("buf=nat") { format!("buf={}", buf) } else { x.to_string() })
+                    .collect();
                 let line = format!(
                     "{} | deny={} allow={} rate={} len={} fv={} blen={} rvar={} {}",
                     raw.join(" "),
@@ -803,10 +819,7 @@ fn exec_case(ops: &[String], run: &mut Run) {
                     abs.text
                 );
                 run.begin_op(&line);
-                let keyset = w.keyset.clone();
-                w.clock.now.store(now, std::sync::atomic::Ordering::Relaxed);
                 let out = run_handle(w.server.as_mut().expect("cfg first"), ip, recv, now, &msg, buf, &keyset, &sess);
-                let big = run_handle(w.shadow.as_mut().expect("cfg first"), ip, recv, now, &msg, 4096, &keyset, &sess);
                 oracle(run, &w, ip, rvar, &msg, buf, in_deny, in_allow, rate_ok, &abs, &sess, &out, &big);
                 // branch histogram + non-triviality
                 let kind = out.stats.first().map(|e| format!("{}-{}", reason_str(e.2), response_str(e.3))).unwrap_or_else(|| "nostat".into());
@@ -936,6 +949,12 @@ fn oracle(run: &mut Run, w: &World, ip: IpAddr, rvar: f64, msg: &[u8], buf: usiz
         }
         let cause = if site.contains("extension_fields.rs") && site.contains("left == right") || abs.parse == "panic" { "parser-nonce-assert" } else if site.contains("time_types.rs") { "time-assert" } else { "other" };
         ofail(run, "c22_panic", &format!("v={} cause={} min_nonce={}", abs.version, cause, if abs.min_nonce == usize::MAX { -1 } else { abs.min_nonce as i64 }), &format!("Server::handle panicked: {}", site));
+        // C21: a datagram whose handling panics is not accounted for at all ("exactly one statistics entry for every
+        // datagram ... and buffer size"); C17: nor is a decided answer sent or recorded as internal error
+        if out.panicked {
+            ofail(run, "c21_panic", &format!("v={} buf={} natural={}", abs.version, buf, big.resp_len), &format!("Server::handle panicked ({} statistics entries recorded): {}", out.stats.len(), site));
+            ofail(run, "c17_panic", &format!("v={} buf={} natural={}", abs.version, buf, big.resp_len), &format!("Server::handle panicked: {}", site));
+        }
         return;
     }
     // ---------------- C15: the policy clauses are evaluated against the harness's OWN list membership; the real
@@ -2095,13 +2114,17 @@ fn gen_case_with(rng: &mut Rng, idx: u64, malformed: bool, hostile_info: bool) -
             _ => vbt.wrapping_add(rng.below(1 << 44)),
         } };
         let now = recv.wrapping_add(rng.below(1 << 24));
-        let buf = match if !malformed && k == 0 && idx <= 6 { 9 } else { rng.below(10) } {
+        let buf = if sess_used && !malformed && !(k == 0 && idx <= 6) && rng.chance(1, 4) {
+            // NTS: a buffer from the window [natural answer length - 40, natural answer length + 4]: the end of the buffer
+            // falls on every octet of the authenticator field — nonce, ciphertext, tag — and just behind it
+            format!("nat{:+}", rng.usize(0, 44) as i64 - 40)
+        } else { match if !malformed && k == 0 && idx <= 6 { 9 } else { rng.below(10) } {
             0 => "4096".to_string(),
             1 => rng.usize(0, 300).to_string(),
             2 => (msg.len() + 4).to_string(),
             3 => msg.len().saturating_sub(1).to_string(),
             _ => "len".to_string(),
-        };
+        } };
         let (s2c, c2s, alg) = if sess_used || true {
             (hex(&ctx.sess.s2c), hex(&ctx.sess.c2s), ctx.sess.alg.to_string())
         } else {
